@@ -316,6 +316,7 @@ int main(int argc, char** argv) {
         }
         // BestAvailable behaves exactly like the algorithm it selected
         if (c.alg == BestAvailable) { Case c2 = cs; c2.cfg.alg = o.usedAlg; Outcome o4 = runOptimizer(p, c2.cfg);
+            if (verbose) { printf("  explicit %s: %s f=%.17g x=", A.c_str(), o4.returned ? "returned" : ("threw: " + o4.failure).c_str(), o4.f); for (double v : o4.x) printf(" %.17g", v); printf("  (BestAvailable x="); for (double v : o.x) printf(" %.17g", v); printf(")\n"); }
             run.expect(o4.returned && o4.f == o.f && o4.x == o.x, "best-available/same-as-explicit", [&] { return "BestAvailable and explicit " + A + " give different results | " + where; }, RP); }
     };
 
